@@ -2,6 +2,8 @@
 (* Replays an ndjson trace recorded from the real refcount code through the RefCountP        *)
 (* monitor.  Deterministic: one state per event; the monitor's conditions are evaluated      *)
 (* after every event, every failure is collected and written to VERDICT_FILE.                *)
+(* Values in `cb`, `ret`, `cbenter`, `rel.tgt`, `quiet.tgt` are RAW values (what the code     *)
+(* handed out), not generations; `leave.raw` tells the monitor which raw value a call returned.*)
 EXTENDS RefCountP, TraceLib
 
 VARIABLES l, viol, seen
@@ -24,7 +26,11 @@ Apply(s, e) ==
       [] e.ev = "ret"     -> PRet(s, e.id, e.res, e.val, e.err)
       [] e.ev = "panic"   -> PPanic(s, e.id)
       [] e.ev = "enter"   -> PEnter(s, e.n)
-      [] e.ev = "leave"   -> PLeaveZ(s, e.n, e.out, e.rel, IF "zero" \in DOMAIN e THEN e.zero ELSE FALSE)
+      \* raw: the value the call returned (equal values across generations: RefCountP header); traces
+      \* without it: the call's own number, or 0 for a zero-valued call
+      [] e.ev = "leave"   -> PLeaveR(s, e.n, e.out, e.rel,
+                                     IF "raw" \in DOMAIN e THEN e.raw
+                                     ELSE IF "zero" \in DOMAIN e /\ e.zero THEN 0 ELSE e.n)
       [] e.ev = "cb"      -> PCbk(s, e.ref, e.res, e.val, e.err)
       [] e.ev = "rel"     -> PRel(s, e.n, e.tgt)
       [] e.ev = "relcall" -> PRelCall(Dirty(s), e.n, e.inside)
